@@ -691,6 +691,36 @@ class SOpt:
         return SOpt(False, v)
 
 
+class SymMap:
+    """Symbolic dict with int-coded keys and values: `has` (Array Int->Bool) and `val` (Array Int->Int), plus named
+    GHOST arrays (e.g. the id a value was generated from) that contracts may attach.  Immutable; store returns a copy."""
+    __slots__ = ('has', 'val', 'ghost')
+
+    def __init__(self, has, val, ghost=None):
+        self.has, self.val, self.ghost = has, val, dict(ghost or {})
+
+    @staticmethod
+    def fresh(name, ghosts=()):
+        I = z3.IntSort()
+        return SymMap(z3.Array(E.fresh(name + '.has'), I, z3.BoolSort()), z3.Array(E.fresh(name + '.val'), I, I),
+                      {g: z3.Array(E.fresh(name + '.' + g), I, I) for g in ghosts})
+
+    def contains(self, k):
+        return SBool(z3.Select(self.has, toint(k)))
+
+    def get(self, k):
+        return SInt(z3.Select(self.val, toint(k)))
+
+    def gget(self, g, k):
+        return SInt(z3.Select(self.ghost[g], toint(k)))
+
+    def store(self, k, v, **ghost):
+        gh = dict(self.ghost)
+        for g, x in ghost.items():
+            gh[g] = z3.Store(gh[g], toint(k), toint(x))
+        return SymMap(z3.Store(self.has, toint(k), z3.BoolVal(True)), z3.Store(self.val, toint(k), toint(v)), gh)
+
+
 class Ref:
     """Reference to a mutable heap cell (bytearray / list / object record)."""
     __slots__ = ('id', 'tag')
